@@ -49,6 +49,8 @@ type CreatorPlan struct {
 	// milliseconds (between the two steps) instead of Hold: a request that takes long.
 	LongAt int `json:"long_at,omitempty"`
 	LongMs int `json:"long_ms,omitempty"`
+	// FirstID, if not empty, is the id of the creator's first container (default "c<i>-0")
+	FirstID string `json:"first_id,omitempty"`
 	// the creator's first BigN containers carry BigKB KiB of annotations
 	BigKB int `json:"big_kb,omitempty"`
 	BigN  int `json:"big_n,omitempty"`
@@ -84,9 +86,18 @@ type C08Case struct {
 	// carries PreKB[i] KiB of annotations. Big states make the snapshot exceed ttrpc's 4 MiB
 	// message limit, so that the runtime has to split it. No container is larger than
 	// maxCtrKB, so any 8 consecutive ones fit one message (the sender's floor, see C09).
-	PreKB     []int         `json:"pre_kb,omitempty"`
-	PreDist   string        `json:"pre_dist,omitempty"` // label of the size distribution (histogram only)
-	Residents []PluginPlan  `json:"residents"`          // plugins registered and active before the creators start
+	PreKB   []int  `json:"pre_kb,omitempty"`
+	PreDist string `json:"pre_dist,omitempty"` // label of the size distribution (histogram only)
+	// The id alphabet. Pods (default: one pod "pod0") are the runtime's pod sandboxes, all of
+	// them part of every snapshot; container k (in store order) belongs to pod k mod len(Pods).
+	// PreIDs[i], if not empty, is the id of pre-existing container i (default "pre-<i>"). Pod
+	// ids and container ids are separate id spaces: a container may carry the id of its own or
+	// of another pod (an infra/pause container exposed under the sandbox id), or an id that
+	// is a prefix or an extension of one. Container ids are unique among containers, pod ids
+	// among pods; ids are never empty.
+	Pods      []string      `json:"pods,omitempty"`
+	PreIDs    []string      `json:"pre_ids,omitempty"`
+	Residents []PluginPlan  `json:"residents"` // plugins registered and active before the creators start
 	Creators  []CreatorPlan `json:"creators"`
 	Plugins   []PluginPlan  `json:"plugins"` // plugins registering while the creators run
 	Noise     int           `json:"noise"`   // goroutines issuing pod state-change events outside sync blocks (they contend for the adaptation lock, they create nothing)
@@ -243,6 +254,47 @@ func genC08(t *rapid.T) C08Case {
 			}
 		}
 	}
+	// The id alphabet: in half of the plans pods and containers draw their ids from one pool.
+	if rapid.Bool().Draw(t, "shared_ids") {
+		pool := []string{"sb0", "sb1", "sb", "sb00", "s", "0"}
+		np := rapid.IntRange(1, 3).Draw(t, "pods")
+		rest := append([]string(nil), pool...)
+		take := func(from *[]string, label string) string {
+			k := rapid.IntRange(0, len(*from)-1).Draw(t, label)
+			id := (*from)[k]
+			*from = append(append([]string(nil), (*from)[:k]...), (*from)[k+1:]...)
+			return id
+		}
+		for i := 0; i < np; i++ {
+			c.Pods = append(c.Pods, take(&rest, "pod_id"))
+		}
+		// candidates for containers: every pod id first (a container named like its own or another
+		// pod), then the unused pool ids (prefixes / extensions of pod ids), then extensions
+		cands := append([]string(nil), c.Pods...)
+		cands = append(cands, rest...)
+		for _, pid := range c.Pods {
+			cands = append(cands, pid+"-", pid+"0x")
+		}
+		if c.Pre == 0 {
+			c.Pre = 1
+		}
+		c.PreIDs = make([]string, c.Pre)
+		// the first special id goes to a drawn pre-existing container and is a pod's id
+		k := rapid.IntRange(0, c.Pre-1).Draw(t, "pre_special")
+		j := rapid.IntRange(0, np-1).Draw(t, "pre_pod")
+		c.PreIDs[k] = cands[j]
+		cands = append(append([]string(nil), cands[:j]...), cands[j+1:]...)
+		for n := rapid.IntRange(0, min(3, c.Pre-1)).Draw(t, "pre_more"); n > 0; n-- {
+			if k = rapid.IntRange(0, c.Pre-1).Draw(t, "pre_special"); c.PreIDs[k] == "" {
+				c.PreIDs[k] = take(&cands, "pre_id")
+			}
+		}
+		for i := range c.Creators {
+			if rapid.Bool().Draw(t, "first_id") && rapid.Bool().Draw(t, "first_id") && len(cands) > 0 {
+				c.Creators[i].FirstID = take(&cands, "creator_id")
+			}
+		}
+	}
 	long := !big // a big state is not combined with a shortened request timeout
 	for i := 0; i < longCoins; i++ {
 		long = rapid.Bool().Draw(t, "long") && long
@@ -361,6 +413,45 @@ func normalize(c C08Case) C08Case {
 		c.Residents[i].Leave, c.Residents[i].LeaveUs, c.Residents[i].InLong = 0, 0, false
 	}
 	c.Noise = clamp(c.Noise, 0, 4)
+	// ids: non-empty, bounded, unique within their own id space; defaults never collide with
+	// explicit ones (an explicit id that looks like a default one is dropped)
+	okID := func(id string) bool {
+		return id != "" && len(id) <= 64 && id != "final" && !strings.HasPrefix(id, "pre-") &&
+			!(len(id) > 1 && id[0] == 'c' && id[1] >= '0' && id[1] <= '9' && strings.Contains(id, "-"))
+	}
+	seenPod := map[string]bool{}
+	var pods []string
+	for _, id := range c.Pods {
+		if okID(id) && !seenPod[id] && len(pods) < 8 && id != fx.ProbePodID && !strings.HasPrefix(id, "noise-pod-") {
+			seenPod[id] = true
+			pods = append(pods, id)
+		}
+	}
+	c.Pods = pods
+	seenCtr := map[string]bool{}
+	if len(c.PreIDs) > c.Pre {
+		c.PreIDs = c.PreIDs[:c.Pre]
+	}
+	ids := make([]string, len(c.PreIDs))
+	for i, id := range c.PreIDs {
+		if okID(id) && !seenCtr[id] {
+			seenCtr[id] = true
+			ids[i] = id
+		}
+	}
+	c.PreIDs = ids
+	if len(ids) == 0 {
+		c.PreIDs = nil
+	}
+	for i := range c.Creators {
+		if id := c.Creators[i].FirstID; id != "" {
+			if okID(id) && !seenCtr[id] {
+				seenCtr[id] = true
+			} else {
+				c.Creators[i].FirstID = ""
+			}
+		}
+	}
 	if c.ReqTimeoutMs != 0 {
 		c.ReqTimeoutMs = clamp(c.ReqTimeoutMs, 100, 10000)
 	}
@@ -503,7 +594,8 @@ type exec struct {
 	c    C08Case
 	base time.Time
 	r    *fx.Runtime
-	pod  *api.PodSandbox
+	pods []*api.PodSandbox
+	nctr atomic.Int64 // containers made so far (assigns pods round robin)
 
 	held   atomic.Int64 // sync blocks held by the harness: a lower bound of the real number
 	inSync atomic.Int64 // SyncFn invocations in progress
@@ -610,10 +702,10 @@ func (x *exec) syncFn(ctx context.Context, cb adaptation.SyncCB) error {
 	reg.TSnap = x.now()
 	x.storeMu.Unlock()
 	reg.SnapLen = len(snap)
-	reg.SnapBytes = proto.Size(&api.SynchronizeRequest{Pods: []*api.PodSandbox{x.pod}, Containers: snap})
+	reg.SnapBytes = proto.Size(&api.SynchronizeRequest{Pods: x.pods, Containers: snap})
 
 	t0 := time.Now()
-	_, err := cb(ctx, []*api.PodSandbox{x.pod}, snap)
+	_, err := cb(ctx, x.pods, snap)
 	took := time.Since(t0)
 	reg.CbUs = int64(took / time.Microsecond)
 
@@ -891,7 +983,8 @@ func (x *exec) add(c *api.Container) {
 // plan wants it unblocked again after the step (atEnd) or inside the next block (late).
 func (x *exec) createOne(creator int, id string, cp CreatorPlan, carry *adaptation.PluginSyncBlock, long bool, kb int) (rec Creation, atEnd, late *adaptation.PluginSyncBlock) {
 	rec = Creation{ID: id, Creator: creator}
-	ctr := newCtr(id, x.pod.Id, kb)
+	pod := x.nextPod()
+	ctr := newCtr(id, pod.Id, kb)
 	rec.TReq = x.now()
 	b := x.r.A.BlockPluginSync()
 	rec.TAcq = x.now()
@@ -917,7 +1010,7 @@ func (x *exec) createOne(creator int, id string, cp CreatorPlan, carry *adaptati
 	}
 	create := func() {
 		rec.TCall = x.now()
-		_, err := x.r.A.CreateContainer(context.Background(), &api.CreateContainerRequest{Pod: x.pod, Container: ctr})
+		_, err := x.r.A.CreateContainer(context.Background(), &api.CreateContainerRequest{Pod: pod, Container: ctr})
 		rec.TRet = x.now()
 		if err != nil {
 			rec.Err = err.Error()
@@ -980,6 +1073,10 @@ func bigKB(cp CreatorPlan, k int) int {
 	return 0
 }
 
+func (x *exec) nextPod() *api.PodSandbox {
+	return x.pods[int(x.nctr.Add(1)-1)%len(x.pods)]
+}
+
 func (x *exec) launchAt(n int64) {
 	for _, pl := range x.plugs {
 		if !pl.resident && int64(pl.plan.After) <= n && pl.launched.CompareAndSwap(false, true) {
@@ -993,7 +1090,11 @@ func (x *exec) creator(i int, cp CreatorPlan) {
 	k := 0
 	var carry *adaptation.PluginSyncBlock
 	one := func() {
-		rec, atEnd, late := x.createOne(i, fmt.Sprintf("c%d-%d", i, k), cp, carry, cp.LongAt > 0 && k+1 == cp.LongAt, bigKB(cp, k))
+		id := fmt.Sprintf("c%d-%d", i, k)
+		if k == 0 && cp.FirstID != "" {
+			id = cp.FirstID
+		}
+		rec, atEnd, late := x.createOne(i, id, cp, carry, cp.LongAt > 0 && k+1 == cp.LongAt, bigKB(cp, k))
 		carry = late
 		x.crecs[i] = append(x.crecs[i], rec)
 		k++
@@ -1056,7 +1157,14 @@ func stacks() string {
 
 // execute runs the plan once.
 func execute(c C08Case, attempt int) result {
-	x := &exec{c: c, base: time.Now(), pod: &api.PodSandbox{Id: "pod0", Name: "pod0", Namespace: "ns", Uid: "uid0"}}
+	x := &exec{c: c, base: time.Now()}
+	podIDs := c.Pods
+	if len(podIDs) == 0 {
+		podIDs = []string{"pod0"}
+	}
+	for _, id := range podIDs {
+		x.pods = append(x.pods, &api.PodSandbox{Id: id, Name: "pod-" + id, Namespace: "ns", Uid: "uid-" + id})
+	}
 	r, err := fx.NewRuntime()
 	if err != nil {
 		return result{infra: "cannot start the adaptation: " + err.Error()}
@@ -1068,7 +1176,10 @@ func execute(c C08Case, attempt int) result {
 		if i < len(c.PreKB) {
 			kb = c.PreKB[i]
 		}
-		x.store = append(x.store, newCtr(id, x.pod.Id, kb))
+		if i < len(c.PreIDs) && c.PreIDs[i] != "" {
+			id = c.PreIDs[i]
+		}
+		x.store = append(x.store, newCtr(id, x.nextPod().Id, kb))
 	}
 	for i, pp := range c.Residents {
 		x.plugs = append(x.plugs, x.newPlug(i, pp, true))
@@ -1438,6 +1549,39 @@ func execute(c C08Case, attempt int) result {
 			}
 		}
 	}
+	if len(c.Pods) > 0 {
+		isPod := map[string]bool{}
+		for _, id := range c.Pods {
+			isPod[id] = true
+		}
+		related := func(id string) bool { // a proper prefix or extension of a pod id
+			for _, pid := range c.Pods {
+				if id != pid && (strings.HasPrefix(id, pid) || strings.HasPrefix(pid, id)) {
+					return true
+				}
+			}
+			return false
+		}
+		classes = append(classes, fmt.Sprintf("ids:shared-pool,pods:%d", len(c.Pods)))
+		pre, prefix, created := false, false, false
+		for _, id := range c.PreIDs {
+			pre = pre || isPod[id]
+			prefix = prefix || (id != "" && related(id))
+		}
+		for _, cp := range c.Creators {
+			created = created || isPod[cp.FirstID]
+			prefix = prefix || (cp.FirstID != "" && related(cp.FirstID))
+		}
+		if pre { // a container that exists before the registrations carries the id of a pod of the snapshot
+			classes = append(classes, "ids:existing-ctr=pod")
+		}
+		if created {
+			classes = append(classes, "ids:created-ctr=pod")
+		}
+		if prefix {
+			classes = append(classes, "ids:prefix-related")
+		}
+	}
 	if len(c.PreKB) > 0 {
 		dist := c.PreDist
 		if dist == "" {
@@ -1675,6 +1819,8 @@ func sweepCases() []C08Case {
 	}
 	bigCr := cr(false, 4, 0, 0)
 	bigCr.BigKB, bigCr.BigN = 300, 2
+	idCr := cr(false, 4, 0, 0)
+	idCr.FirstID = "sb"
 	multi := cr(true, 4, 2, 800)
 	multi.Unblocks, multi.Again, multi.Late = 3, 0, true
 	return []C08Case{
@@ -1693,6 +1839,10 @@ func sweepCases() []C08Case {
 			Plugins: []PluginPlan{{Idx: 30, After: 2}, {Idx: 2, After: 9}}, Noise: 1, Delays: d(3)},
 		{PreKB: uniform, PreDist: "uniform", Creators: []CreatorPlan{cr(false, 8, 0, 0), cr(true, 5, 0, 0)},
 			Plugins: []PluginPlan{{Idx: 11, After: 3}}, Delays: d(1)},
+		// one id alphabet for pods and containers: containers named like their own pod, like
+		// another pod, like a prefix / an extension of a pod id; one created with a pod's id
+		{Pre: 5, Pods: []string{"sb0", "sb1", "sb"}, PreIDs: []string{"sb1", "", "sb0", "s", "sb00"}, Residents: []PluginPlan{{Idx: 4}},
+			Creators: []CreatorPlan{idCr, cr(true, 5, 0, 0)}, Plugins: []PluginPlan{{Idx: 12, After: 1}, {Idx: 1, After: 6}}, Delays: d(3)},
 		// the default-sized timeout of the library (2 s) with a block of 2.5 s
 		{Creators: []CreatorPlan{cr(true, 2, 1, 2500)}, Plugins: []PluginPlan{pl(1)}, Delays: d(1), ReqTimeoutMs: 2000},
 	}
